@@ -7,6 +7,8 @@ import (
 	"fmt"
 	"go/types"
 	"math/big"
+	"os"
+	"path/filepath"
 	"sort"
 	"strings"
 	"sync"
@@ -303,6 +305,33 @@ type harnessRun struct {
 	falsifyHits int
 	falsify     bool
 	openKF      map[string]bool
+	dumpDir     string
+	dumpMax     int
+	dumped      int
+}
+
+// dumpQuery writes an assertion query (declarations, path condition, negated
+// assertion) with the answer the deciding solver gave, for cross-checking.
+func (h *harnessRun) dumpQuery(st *pathState, label, neg string, r satResult) {
+	h.mu.Lock()
+	if h.dumpDir == "" || h.dumped >= h.dumpMax || neg == "true" {
+		h.mu.Unlock()
+		return
+	}
+	h.dumped++
+	n := h.dumped
+	h.mu.Unlock()
+	var sb strings.Builder
+	sb.WriteString("; harness " + h.name + " assertion " + label + "\n; expect " + r.String() + "\n")
+	for _, d := range st.decls {
+		sb.WriteString(d + "\n")
+	}
+	for _, c := range st.pc {
+		sb.WriteString("(assert " + c + ")\n")
+	}
+	sb.WriteString("(assert " + neg + ")\n(check-sat)\n")
+	short := h.name[strings.LastIndex(h.name, ".")+1:]
+	os.WriteFile(filepath.Join(h.dumpDir, fmt.Sprintf("q-%s-%04d.smt2", sanitize(short), n)), []byte(sb.String()), 0o644)
 }
 
 func (h *harnessRun) addDecision()       { h.mu.Lock(); h.decisions++; h.mu.Unlock() }
